@@ -53,9 +53,16 @@ func genSplit(mk func() payloader) func(x *Ctx) {
 				}
 			}
 		}
+		// the largest MTUs (uint16 arithmetic on the MTU wraps exactly here: seed C16-r2-1)
+		for _, mtu := range []int{65533, 65534, 65535} {
+			for _, n := range []int{0, 1, 2, 100, 9999, 10000} {
+				one(mtu, n, false)
+			}
+			one(mtu, 0, true)
+		}
 		for i, n := 0, x.N(3000, 300000); i < n; i++ {
 			x.Case(func(c *Case) {
-				mtu := c.R.Pick(1, 2, 3, c.R.Range(1, 64), c.R.Range(1, 2000), c.R.Range(1, 65535))
+				mtu := c.R.Pick(1, 2, 3, c.R.Range(1, 64), c.R.Range(1, 2000), c.R.Range(1, 65535), 65535)
 				ln := c.R.Size(10000, mtu, 2*mtu, 3*mtu)
 				in := c.R.Bytes(ln)
 				c.I.Nat(mtu).OBytes(in)
